@@ -649,6 +649,8 @@ def py_len(ctx, v):
 
 
 def getitem(ctx, obj, idx):
+    if hasattr(obj, "pysym_getitem"):
+        return obj.pysym_getitem(ctx, idx)
     if isinstance(obj, SHex):
         n = obj.nbits // 4
         if isinstance(idx, slice):
